@@ -62,6 +62,12 @@ package stack
 //@   trusted
 //@   requires implies(protocol == header.UDPProtocolNumber, len(hdr.buf) - hdr.usedIdx >= 8 && int(be16(hdr.buf, hdr.usedIdx + 4)) == len(hdr.buf) - hdr.usedIdx + payload.size)
 //@   requires implies(protocol == header.TCPProtocolNumber, len(hdr.buf) - hdr.usedIdx >= 20 && int(hdr.buf[hdr.usedIdx + 12] >> 4) * 4 == len(hdr.buf) - hdr.usedIdx)
+//@   requires implies(protocol == header.ICMPv4ProtocolNumber, len(hdr.buf) - hdr.usedIdx >= 4 && (len(hdr.buf) - hdr.usedIdx) % 2 == 0 && len(payload.views) == 1 && len(payload.views[0]) == payload.size
+//@             && oc16(wsum16(hdr.buf, hdr.usedIdx, len(hdr.buf)) + wsum16(payload.views[0], 0, len(payload.views[0]))) == 0)
+//@   ensures implies(protocol == header.ICMPv4ProtocolNumber, ghost(icmpSent) == old(ghost(icmpSent)) + 1
+//@             && ghost(lastICMPType) == int(old(hdr.buf[hdr.usedIdx])) && ghost(lastICMPCode) == int(old(hdr.buf[hdr.usedIdx + 1])) && ghost(lastICMPHdrLen) == old(len(hdr.buf) - hdr.usedIdx)
+//@             && ghost(lastICMPPayloadArr) == int(old(arr(payload.views[0]))) && ghost(lastICMPPayloadOff) == old(off(payload.views[0])) && ghost(lastICMPPayloadLen) == old(len(payload.views[0])))
+//@   ensures implies(protocol != header.ICMPv4ProtocolNumber, ghost(icmpSent) == old(ghost(icmpSent)))
 //@   ensures implies(protocol == header.TCPProtocolNumber, ghost(tcpSegs) == old(ghost(tcpSegs)) + 1
 //@             && ghost(lastTCPFlags) == int(old(hdr.buf[hdr.usedIdx + 13])) && ghost(lastTCPSeq) == int(old(be32(hdr.buf, hdr.usedIdx + 4))) && ghost(lastTCPAck) == int(old(be32(hdr.buf, hdr.usedIdx + 8))))
 //@   ensures implies(protocol == header.TCPProtocolNumber, ghost(sentNonFin) == old(ghost(sentNonFin)) + ite(old(hdr.buf[hdr.usedIdx + 13]) & 1 == 0, 1, 0) && ghost(sentFin) == old(ghost(sentFin)) + ite(old(hdr.buf[hdr.usedIdx + 13]) & 1 != 0, 1, 0))
@@ -70,7 +76,7 @@ package stack
 // receiver, segment or endpoint objects, except an endpoint's inbound segment queue (a packet
 // looped back to a local endpoint is only enqueued; it is processed by that endpoint's
 // protocol goroutine). Anything else may change.
-//@   modifies everything_but("protocol/transport/tcp.sender", "protocol/transport/tcp.receiver", "protocol/transport/tcp.endpoint", "protocol/transport/tcp.segment"), structfamily("protocol/transport/tcp.endpoint", "segmentQueue"), ghost(tcpSegs), ghost(lastTCPFlags), ghost(lastTCPSeq), ghost(lastTCPAck), ghost(sentNonFin), ghost(sentFin)
+//@   modifies everything_but("protocol/transport/tcp.sender", "protocol/transport/tcp.receiver", "protocol/transport/tcp.endpoint", "protocol/transport/tcp.segment"), structfamily("protocol/transport/tcp.endpoint", "segmentQueue"), ghost(tcpSegs), ghost(lastTCPFlags), ghost(lastTCPSeq), ghost(lastTCPAck), ghost(sentNonFin), ghost(sentFin), ghost(icmpSent), ghost(lastICMPType), ghost(lastICMPCode), ghost(lastICMPHdrLen), ghost(lastICMPPayloadArr), ghost(lastICMPPayloadOff), ghost(lastICMPPayloadLen)
 
 // C06 at the hand-over from network to link layer: an IPv4 packet is handed down with a total
 // length field that equals the bytes it carries, and a header checksum that verifies.
